@@ -300,3 +300,40 @@ def depth_sweep(depths=(0, 17, 18, 24), groups=None, rng_seed=0):
             inputs = [r.choice(BOUND_F) if r.random() < 0.5 else r.randrange(P) for _ in range(d)]
             out.append({"src": src, "kernel": SWEEP_KERNEL, "inputs": inputs, "adv": [], "class": "sweep-%s-d%d" % (g, max(d, 16))})
     return out
+
+
+# ---------------------------------------------------------------------------------------------------------------------
+# one native operation (or control-flow row) executed directly on the inputs, at an exact stack depth
+NATIVE_OPS = ["NOOP", "ASSERT", "FMPADD", "FMPUPDATE", "SDEPTH", "CLK", "ADD", "NEG", "MUL", "INV", "INCR", "AND", "OR", "NOT", "EQ", "EQZ", "EXPACC", "EXT2MUL",
+              "U32SPLIT", "U32ADD", "U32ADD3", "U32SUB", "U32MUL", "U32MADD", "U32DIV", "U32AND", "U32XOR", "U32ASSERT2", "PAD", "DROP",
+              "DUP0", "DUP1", "DUP2", "DUP3", "DUP4", "DUP5", "DUP6", "DUP7", "DUP9", "DUP11", "DUP13", "DUP15", "SWAP", "SWAPW", "SWAPW2", "SWAPW3", "SWAPDW",
+              "MOVUP2", "MOVUP3", "MOVUP4", "MOVUP5", "MOVUP6", "MOVUP7", "MOVUP8", "MOVDN2", "MOVDN3", "MOVDN4", "MOVDN5", "MOVDN6", "MOVDN7", "MOVDN8",
+              "CSWAP", "CSWAPW", "PUSH:77", "ADVPOP", "ADVPOPW", "MLOADW", "MLOAD", "MSTOREW", "MSTORE", "MSTREAM", "PIPE", "HPERM"]
+
+
+def op_at_depth(depths=(16, 17, 18, 21), rng_seed=0):
+    r = random.Random(rng_seed * 31 + 5)
+    out = []
+    for d in depths:
+        for variant in (0, 1):
+            # top of the stack satisfies every operation's precondition: s0 = 1 (binary, non-zero, u32, assert), s1 binary, u32 operands
+            top = [1, variant, 1, 1] + [r.randrange(2, 2**32) if variant == 0 else (i + 2) for i in range(4, 12)] + [9] + [r.randrange(P) for _ in range(3)]
+            inputs = top + [r.randrange(P) for _ in range(d - 16)]
+            for op in NATIVE_OPS:
+                out.append({"ops": [op], "src": "<span %s>" % op, "kernel": None, "inputs": inputs, "adv": [r.randrange(P) for _ in range(8)],
+                            "class": "op-%s-d%d" % (op.split(":")[0], d)})
+            for op in ("EQ", "EQZ"):        # equal operands / zero operand: the helper is free
+                inp2 = ([5, 5] if op == "EQ" else [0, 3]) + inputs[2:]
+                out.append({"ops": [op], "src": "<span %s>" % op, "kernel": None, "inputs": inp2, "adv": [], "class": "op-%s=-d%d" % (op, d)})
+        # control-flow rows directly on the inputs
+        z = [r.randrange(P) for _ in range(max(0, d - 4))]
+        leaf = "proc.leaf\n  neg neg\nend\n"
+        kern = "export.k0\n  neg neg\nend\nexport.kc\n  caller\nend\nexport.kd\n  push.1 caller drop\nend\n"
+        ctl = [("split1", "begin\n if.true\n  neg neg\n else\n  neg\n end\nend\n", [1, 0, 0, 0]), ("split0", "begin\n if.true\n  neg neg\n else\n  neg\n end\nend\n", [0, 1, 0, 0]),
+               ("loop0", "begin\n while.true\n  neg neg\n end\nend\n", [0, 1, 0, 0]), ("loop1", "begin\n while.true\n  neg neg\n end\nend\n", [1, 0, 0, 0]),
+               ("loop2", "begin\n while.true\n  neg neg\n end\nend\n", [1, 1, 0, 0]), ("call", leaf + "begin\n call.leaf\nend\n", [1, 2, 3, 4]),
+               ("syscall", "begin\n syscall.k0\nend\n", [1, 2, 3, 4]), ("caller16", "begin\n syscall.kc\nend\n", [1, 2, 3, 4]), ("caller17", "begin\n syscall.kd\nend\n", [1, 2, 3, 4]),
+               ("respan", "begin\n " + "neg " * 80 + "\nend\n", [1, 2, 3, 4]), ("join", "begin\n neg\n if.true\n  neg\n else\n  neg neg\n end\n neg\nend\n", [P - 1, 0, 0, 0])]
+        for nm, src, head in ctl:
+            out.append({"src": src, "kernel": kern if "syscall" in src else None, "inputs": head + z, "adv": [], "class": "ctl-%s-d%d" % (nm, d)})
+    return out
